@@ -197,6 +197,23 @@ def run_check(prop: str, tier: str, seed: int, only=None):
         else:
             still_undecided.append((name, st_, d))
     undecided = still_undecided
+    # ---- mechanical source scans (each item is an obligation discharged -- or not -- by the scanner)
+    scan_report = []
+    for sname, sprops, sfn in REG.static_checks:
+        if prop not in sprops or only:
+            continue
+        for item in sfn():
+            total += 1
+            scan_report.append(item)
+            if item["ok"]:
+                proved += 1
+                by_backend["source-scan"] = by_backend.get("source-scan", 0) + 1
+            else:
+                path = os.path.join(rdir, re.sub(r"[^A-Za-z0-9_.#-]", "_", "scan_" + item["name"])[:150] + ".json")
+                with open(path, "w") as f:
+                    json.dump({"property": prop, "obligation": item["name"], "kind": "source-scan", "detail": item["detail"], "solver_verdict": "n/a (source scan)"}, f, indent=1)
+                lines.append(f"VIOLATION property={prop} replay={path} obligation={item['name']} no-failing-input-found")
+                vio_records.append({"obligation": item["name"], "replay": path, "reproduced": False, "solver": "source-scan"})
     # ---- bounded native stand-ins (labelled bounded, never counted as proved)
     bounded_report = []
     for bc in REG.bounded_checks:
@@ -275,7 +292,7 @@ def run_check(prop: str, tier: str, seed: int, only=None):
             "bounded_obligations": bounded_total, "bounded_discharged": bounded_ok, "bounded_checks": bounded_report,
             "undecided": [{"obligation": n, "status": s, "detail": d} for n, s, d in undecided],
             "undecided_kernels": res.undecided_kernels,
-            "known_findings": kf_report,
+            "known_findings": kf_report, "source_scan": scan_report,
             "violations": vio_records,
             "vacuity": {"requires_satisfiable_or_unknown": sum(1 for o in res.obligations if o.kind == "canary") - len(canary_fail),
                         "contradictory_preconditions": canary_fail, "dead_paths": dead_paths,
